@@ -478,7 +478,10 @@ def _run_chunked(res, drv, frames, tail, chunks, script, check_prompt=True):
         # "afterwards only the bytes of a trailing incomplete frame remain buffered": what the decoder really holds
         # (all its bytes-like attributes, whatever its internal layout) is the tail and nothing else
         held = compat.held_buffers(u)
-        if compat.footprint(u) != len(tail) or (len(held) == 1 and bytes(held[0]) != tail):
+        # (judged where the property observes: after ITERATING the decoder.  A caller that drives ready()/pop() by hand
+        # uses the pieces iteration is built from; a decoder may defer dropping the consumed prefix to the end of the
+        # iteration - harmless/U1 does - so what it physically holds between two pop() calls is not the property's matter)
+        if STYLE['api'] != 'ready-pop' and (compat.footprint(u) != len(tail) or (len(held) == 1 and bytes(held[0]) != tail)):
             res.violation('C06', 'tail', 'the decoder holds %d byte(s) after feeding (%r), expected exactly the incomplete tail %r' % (compat.footprint(u), [bytes(h)[:40] for h in held][:2], tail[:40]), script)
     if drv is not None:
         outs = drv.ask_many(lines)[1:]
@@ -713,7 +716,7 @@ def _run_arbitrary(res, drv, chunks, script):
             if rest >= 5 + P.MAXBUF:
                 res.violation('C07', 'bounded', 'buffer holds %d bytes after an error-free drain' % rest, script)
                 return
-            if compat.footprint(u) >= 5 + P.MAXBUF + len(ch):
+            if STYLE['api'] != 'ready-pop' and compat.footprint(u) >= 5 + P.MAXBUF + len(ch):
                 res.violation('C07', 'bounded', 'the decoder holds %d bytes after an error-free drain: more than one maximal frame plus the chunk' % compat.footprint(u), script)
                 return
             # a complete bad header must have been rejected
